@@ -19,7 +19,8 @@ THEOREMS = [
     'Pfst.C15.send_honoured', 'Pfst.C15.checks_sound', 'Pfst.C15.concrete_init_inv', 'Pfst.C15.init_inv',
     'Pfst.C15.dead_skipped', 'Pfst.C15.alloc_bound', 'Pfst.C15.apply_bound', 'Pfst.C15.yield_alive_leave_both', 'Pfst.C15.leave_rewalk_children',
     'Pfst.C15.both_rewalk_reenters', 'Pfst.C15.leave_rewalk_removed', 'Pfst.C15.root_rewalk_children', 'Pfst.C15.root_rewalk_both',
-    'Pfst.C15.root_rewalk_new_children',
+    'Pfst.C15.root_rewalk_new_children', 'Pfst.C15.search_consumer_send_wins', 'Pfst.C15.search_auto_send',
+    'Pfst.C15.send_last', 'Pfst.C15.search_send_true_honoured',
 ]
 RULE = ('(a) nested-list programs (every ordered tree shape with <= 7 List/Name nodes): scripted consumers "at yield k do '
         'action A on target T" with A in {replace by leaf / by [x, y] / by [[x], y], remove} x optional send(False|True), '
@@ -35,6 +36,11 @@ TRUSTED = [
     'modelled: the three loops of fst_traverse.walk (enter with the yield-from nesting for send(True); leave; both) as step '
     'machines over a store (ast.f, fst.a, syntax_ordered_children, check_all_param); replace as _set_ast sees it (FST of the '
     'position kept, old subtree dead, fresh nodes below) and remove as a one-element slice delete',
+    'search(class pattern, nested) is modelled as Search.forwarded (every consumer send is forwarded; search sends False itself only '
+    'when the consumer sent nothing and nested=False) on top of the walk machines, compared on the same scripted histories; '
+    'the scope helpers are swept with deterministic replace / remove / send on every node they yield (walrus targets, first '
+    'iterators, defaults, decorators, bases, annotations, type parameters), all in {False, True, Name}, both directions, '
+    'oracle: an FST instance, alive, in the tree, no repeat, no exception',
     'not modelled: scope=True (_ScopeContext; exercised by the sweep only, observationally compared on list programs where it '
     'must not change anything), asts=, the f.a->None `None` entries of syntax_ordered_children, source text and positions '
     '(the final-tree oracle covers them per run), cut / raw operations (documented as unsupported or lossy during a walk)',
@@ -207,6 +213,9 @@ def list_cases(ctx):
         c = dict(p, src=src, wroot=rng.choice(WROOTS), script=sc, all=rng.choice('FFFTN'), mode='exec')
         if p['on'] == 'enter' and rng.random() < 0.25:
             c['scope'] = True
+        elif rng.random() < 0.2:
+            c['search'] = {'nested': rng.random() < 0.5}
+            c['all'] = rng.choice(['LN', 'L', 'N'])
         if c['wroot'] == [0, 0] and rng.random() < 0.2:
             # walk a proper subtree: the first inner List, if any
             t = ast.parse(src).body[0].value
@@ -238,6 +247,30 @@ def rewalk_cases():
     return out
 
 
+SEARCH_SRCS = ['[a, [b, c], d]', '[[a, [b]], c]']
+
+
+def search_cases():
+    """deterministic: FST.search(class pattern, nested, on) driven like walk: at match k replace / remove the matched node
+    (or not) and answer with send(True | False | nothing)"""
+    out = []
+    for src in SEARCH_SRCS:
+        n = n_vis(src)
+        for pat in ('LN', 'L'):
+            for nested in (False, True):
+                for on in ONS:
+                    for back in (False, True):
+                        for k in range((n + 1) * (2 if on == 'both' else 1)):
+                            for action in (None, 1, 2, 'remove'):
+                                for send in (None, True, False):
+                                    if pat == 'L' and back and action == 2:
+                                        continue
+                                    out.append(dict(on=on, back=back, recurse=True, self_=True, src=src, wroot=[0, 0],
+                                                    script=[[k, act_list('cur', action, send, 'w')]] if (action is not None or send is not None) else [],
+                                                    all=pat, mode='exec', search={'nested': nested}))
+    return out
+
+
 def _fst():
     from fst import FST
     return FST
@@ -252,6 +285,13 @@ def _run(case):
 
 
 def lean_case(case, res, which):
+    d = _lean_case(case, res, which)
+    if case.get('search'):
+        d['nested'] = case['search']['nested']
+    return d
+
+
+def _lean_case(case, res, which):
     return {'f': 'C15.run', 'on': case['on'], 'self': case.get('self_', True), 'recurse': case.get('recurse', True),
             'back': case.get('back', False), 'tree': res['tree0'], 'next': res['next0'], 'root': res['root_fid'],
             'script': res['mscript' + which], 'cap': 40 * (res['next0'] + 8) + 2}
@@ -285,6 +325,8 @@ def sig(case, cls, last_mut):
 def report_viol(ctx, case, res, where):
     seen = set()
     for cls, detail, last_mut in res.get('viol', []):
+        if case.get('search'):
+            cls = 'search-' + cls       # the consumer drives FST.search(), not FST.walk()
         s = sig(case, cls, last_mut)
         if s in seen:
             continue
@@ -329,7 +371,7 @@ def compare(ctx, name, cases, results, also_ideal):
         ctx.corr_cases += 1
         m = mo.get('out', mo)
         ctx.count([c['src'], c['on'], c.get('back'), c.get('recurse'), c.get('self_'), c.get('scope'), c.get('all'),
-                   c.get('wroot'), c['script'], w], r['n_mut'] > 0)
+                   c.get('wroot'), c['script'], w, c.get('search')], r['n_mut'] > 0 or bool(c.get('search')))
         why = None
         if 'yields' not in m:
             why = 'model error ' + json.dumps(m)[:200]
@@ -402,7 +444,7 @@ def run_compare(ctx, name, case_iter, also_ideal, where, tally_prefix=''):
 
 
 def correspondence(ctx):
-    run_compare(ctx, 'walk(list programs) vs Pfst.WalkMut machines', itertools.chain(rewalk_cases(), list_cases(ctx)), True,
+    run_compare(ctx, 'walk(list programs) vs Pfst.WalkMut machines', itertools.chain(rewalk_cases(), search_cases(), list_cases(ctx)), True,
                 'list program')
     ctx.exhaustive = ctx.notes.get('single_scripts', '').startswith('exhaustive')   # for the bounded part only, see notes
 
@@ -416,6 +458,8 @@ STMT_REPL = ['zz = yy', 'if zz:\n    yy\n    ww', 'pass']
 def prog_cases(ctx, n_prog, per, stdlib):
     rng = random.Random(ctx.rng.random())
     progs = corpus.programs(rng, n_prog, stdlib=stdlib)
+    hard = corpus.hard_snippets() if hasattr(corpus, 'hard_snippets') else []
+    progs = progs + (hard if not ctx.quick else rng.sample(hard, min(len(hard), 25)))     # appended after the existing inputs
     cases = []
     grid = param_grid()
     for src in progs:
@@ -603,20 +647,52 @@ LIST_PROGS = ['[[a, b], [c, [d, e]], f]', 'x = [a, [b, c], d]\ny = [[e], f(g, [h
               '[pre_grand, [pre_parent, [self], post_parent], post_grand]', 'v = [a, (b, [c, d]), {e: [f]}]']
 
 
-SCOPE_SRCS = ['def f():\n    return [i for i in e if i]\n', 'def f(a=d):\n    x = {k: v for k, v in m.items()}\n    return (j for j in [p, q])\n',
-              'class C:\n    y = [u for u in (v for v in w)]\n']
+SCOPE_SRCS = [
+    'def f():\n    return [i for i in e if i]\n',
+    'def f(a=d):\n    x = {k: v for k, v in m.items()}\n    return (j for j in [p, q])\n',
+    'class C:\n    y = [u for u in (v for v in w)]\n',
+    'def func(arg):\n    vals = [(last := item * 2) for item in arg]\n    return last, vals\n',
+    'def f(a=d, *, k: ann = dk) -> ret:\n    g = lambda p=q, *r, s=t: (w := p)\n'
+    '    return {x: (y := v) for x in it1 for v in [z for z in (u := it2)]}\n',
+    '@deco(dd)\nclass C(Base, metaclass=M):\n    y = [u for u in (v for v in w)]\n    def m(self, z: int = cz): pass\n',
+    '@dec\ndef h[T: bound](x: T = dflt):\n    return (i for i in [(j := i) for i in x])\n',
+]
+SCOPE_ACTS = [[['replace', 'cur', 'zz']], [['replace', 'cur', 'zz'], ['send', True]], [['replace', 'cur', '[zz, yy]'], ['send', True]],
+              [['replace', 'cur', 'zz.ww(yy)']], [['remove', 'cur']], [['send', True]], [['send', False]]]
 
 
 def scope_cases():
-    """oracle only (scope is not modelled): replace / send(True) on every yield of a scope walk over comprehensions"""
+    """oracle only (the scope helpers are not modelled): on every yield of a scope walk -- first iterators and walrus
+    targets of (nested) comprehensions, defaults, decorators, bases, annotations, type parameters -- replace / remove
+    exactly the yielded node and / or send, for all in {False, True, a type}, both directions"""
     out = []
     for src in SCOPE_SRCS:
-        for back in (False, True):
-            for k in range(14):
-                for acts in ([['replace', 'cur', '[zz, yy]'], ['send', True]], [['replace', 'cur', 'zz.ww(yy)'], ['send', True]],
-                             [['send', True]], [['replace', 'cur', '[zz, yy]']], [['remove', 'cur']]):
-                    out.append(dict(on='enter', back=back, recurse=True, self_=True, scope=True, src=src, wroot=[0],
-                                    script=[[k, acts]], all='F', mode='exec'))
+        n = sum(1 for _ in ast.walk(ast.parse(src)))
+        for all_ in 'FTN':
+            ny = min(n, 36) if all_ == 'T' else min(n, 22)
+            for back in (False, True):
+                for k in range(ny):
+                    for acts in SCOPE_ACTS:
+                        out.append(dict(on='enter', back=back, recurse=True, self_=True, scope=True, src=src, wroot=[0],
+                                        script=[[k, acts]], all=all_, mode='exec'))
+    return out
+
+
+COLLAPSE_SRCS = ['x = a and b', 'x = [a and b, c or d or e]', 'if a and b:\n    pass\n', 'y = f(a or b, (c and d))']
+
+
+def collapse_cases():
+    """removing an operand of a two-operand BoolOp with norm=True collapses it: the remaining operand's AST moves into
+    the BoolOp's FST (not a `Mut` change: compared through observed trees, judged by the oracle)"""
+    out = []
+    for src in COLLAPSE_SRCS:
+        n = sum(1 for _ in ast.walk(ast.parse(src)))
+        for on in ONS:
+            for back in (False, True):
+                for k in range(min(n, 12) * (2 if on == 'both' else 1)):
+                    for t in ('cur', 'prev', 'next'):
+                        out.append(dict(on=on, back=back, recurse=True, self_=True, src=src, wroot=[], script=[[k, [['remove', t]]]],
+                                        all='F', mode='exec'))
     return out
 
 
@@ -628,7 +704,7 @@ def sweep(ctx):
         ctx.count([c['src'], c['back'], c['script'], 'scope'], r.get('n_mut', 0) > 0)
         report_viol(ctx, c, r, 'scope walk')
     # corpus programs: oracle + correspondence through observed trees
-    cases = prog_cases(ctx, 60 if q else 500, 5 if q else 14, 4 if q else 40)
+    cases = collapse_cases() + prog_cases(ctx, 60 if q else 500, 5 if q else 14, 4 if q else 40)
     run_compare(ctx, 'walk(corpus programs, observed mutations) vs Pfst.WalkMut machines', cases, False, 'corpus program',
                 'prog_')
     # search / sub
